@@ -98,6 +98,10 @@ func (db *DB) compact(sourceSeg *segment) (CompactionResult, error) {
 	verifYield(db, "compact:copied")
 	db.mu.Lock()
 	defer db.mu.Unlock()
+	// Make the promoted records durable before removing their only other copy.
+	if err := db.datalog.sync(); err != nil {
+		return cr, err
+	}
 	err = db.datalog.removeSegment(sourceSeg)
 	return cr, err
 }
